@@ -1628,12 +1628,14 @@ impl Bgi {
             for c in str.chars() {
                 if let Some(glyph) = DEFAULT_BITFONT.get_glyph(c) {
                     for y in 0..8 {
-                        let mut pos = ((yf + y) * self.window.width + xf) as usize;
                         for x in 0..8 {
                             if glyph.data[y as usize] & (1 << (7 - x)) != 0 {
-                                self.screen[pos] = self.color;
+                                // clip to the window: text may start left of / above it or run off its edges
+                                let (px, py) = (xf + x, yf + y);
+                                if px >= 0 && px < self.window.width && py >= 0 && py < self.window.height {
+                                    self.screen[(py * self.window.width + px) as usize] = self.color;
+                                }
                             }
-                            pos += 1;
                         }
                     }
                     xf += 8;
